@@ -608,6 +608,41 @@ func runC12(c C12Case) (st c12Stats, v *Violation) {
 	st.preempt = sch.preempt
 	// Closure: everything runs freely, three more flushes complete.
 	sch.release()
+	// Before any flush of the harness: a writer that waits while the flusher
+	// idles in its select (next tick an hour away) and no flush is in progress
+	// has lost the flush it asked for; only somebody else's flush could still
+	// release it, and a single writer has nobody else.
+	if v == nil {
+		quiet := 0
+		for i := 0; i < 60 && quiet < 8; i++ {
+			time.Sleep(5 * time.Millisecond)
+			waiting, flusherIdle, busy := 0, false, false
+			for _, g := range current() {
+				switch {
+				case strings.Contains(g.stack, ".(*Store).flushTick") && g.state == "chan receive":
+					waiting++
+				case strings.Contains(g.stack, ".(*Store).run") && g.state == "select" && !strings.Contains(g.stack, ".(*Store).Flush"):
+					flusherIdle = true
+				default:
+					busy = true // a flush, or any other call into the store, is under way
+				}
+			}
+			if waiting == 0 && !busy {
+				break
+			}
+			if waiting > 0 && flusherIdle && !busy {
+				quiet++
+			} else {
+				quiet = 0
+			}
+		}
+		if quiet >= 8 {
+			sch.mu.Lock()
+			evlog := append([]string{}, sch.arrivals...)
+			sch.mu.Unlock()
+			v = viol("writer-never-released|before-closure|request-for-flush-lost", 0, "after the generated schedule, with every task running freely and before any further Flush call: a writer waits for the flush notice, the flusher is idle in its select (periodic interval one hour), and nothing else is inside the store (stable over 8 samples): the flush this writer asked for has completed without releasing it, or was never started (event order: %s)", strings.Join(tail(evlog, 30), " "))
+		}
+	}
 	for i := 0; i < 3; i++ {
 		if err := s.Flush(); err != nil && firstErr == nil {
 			firstErr = err
